@@ -191,8 +191,9 @@ func stateInDoubleQuotedString(s *scanner, c byte) int {
 }
 
 func stateInDqStringEsc(s *scanner, c byte) int {
+	// the literal parser keeps the escaped byte as it is: only the escapes that mean the byte itself
 	switch c {
-	case 'b', 'f', 'n', 'r', 't', '\\', '/', '"':
+	case '\\', '"':
 		s.step = stateInDoubleQuotedString
 		return scanContinue
 	}
